@@ -211,6 +211,37 @@ func TestVerifReplay(t *testing.T) {
 			}
 		}
 	}
+	// character recipes with a requirement: no valid string may be likelier than 2^-Entropy. The alphabet order is
+	// Go-map dependent, so the distribution is estimated from N generations on a pseudo-random stream
+	// (threshold at 5.5 standard deviations above the bound: false alarm chance about 2e-8 per string)
+	{
+		r := CharRecipe{Length: 2, AllowChars: "ab", RequireSets: []string{"1"}}
+		ent := float64(r.Entropy())
+		bound := math.Exp2(-ent)
+		N := 20000
+		rng := &vRng{s: uint64(req.Seed)*0x9E3779B97F4A7C15 + 12345}
+		tape := make([]byte, 64*N)
+		for i := range tape {
+			tape[i] = byte(rng.next() >> 24)
+		}
+		counts := map[string]int{}
+		tp := newTape(tape)
+		vWithTape(tp, func() {
+			for i := 0; i < N; i++ {
+				if p, err := r.Generate(); err == nil {
+					counts[p.String()]++
+				}
+			}
+		})
+		limit := float64(N)*bound + 5.5*math.Sqrt(float64(N)*bound*(1-bound))
+		for pw, n := range counts {
+			if float64(n) > limit {
+				vReport(vHit{Input: map[string]interface{}{"recipe": r, "generations": N}, Observed: vSprint("password ", pw, " returned ", n, " times of ", N, " (", float64(n)/float64(N), ")"),
+					Required: vSprint("at most 2^-Entropy = ", bound, " of the time (Entropy() = ", ent, "); ", limit, " occurrences would already be 5.5 standard deviations above that")})
+				return
+			}
+		}
+	}
 	// constructed separator functions report the entropy of what they return
 	for _, s := range []struct {
 		name string
